@@ -275,7 +275,8 @@ def _common_guard(g1, g2):
     return T.mk_and([c for c in _split_guard(g1) if c.key in k2])
 
 
-def agree_ref(ctx, fi, ref_src, title, what=('return', 'heap', 'substores'), rule='AGREE', skip_attrs=(), norm_call=None, **runkw):
+def agree_ref(ctx, fi, ref_src, title, what=('return', 'heap', 'substores'), rule='AGREE', skip_attrs=(), norm_call=None,
+              ref_attrs_only=False, **runkw):
     """Compare a function with a reference transcription of the property's definition evaluated by
     the same interpreter: return value, final values of self attributes, attribute stores, calls,
     buffer stores, loop-carried updates, raise/assert guards.  Events are matched as multisets (the
@@ -299,7 +300,7 @@ def agree_ref(ctx, fi, ref_src, title, what=('return', 'heap', 'substores'), rul
     if 'heap' in what:
         keys = sorted({k for k in list(I.heap) + list(IR.heap) if k[0] == sym('self').key})
         for k in keys:
-            if k[1] in skip_attrs:
+            if k[1] in skip_attrs or (ref_attrs_only and k not in IR.heap):
                 continue
             a = I.heap.get(k, T.mk_attr(sym('self'), k[1]))
             b = IR.heap.get(k, T.mk_attr(sym('self'), k[1]))
@@ -307,9 +308,13 @@ def agree_ref(ctx, fi, ref_src, title, what=('return', 'heap', 'substores'), rul
             ctx.formula(rule, f'{title}: self.{k[1]} at exit == reference definition', fi, a, b,
                         node=(st[-1].node if st else fi.node), construct=f'self.{k[1]} at exit')
     if 'attrstores' in what:
+        ref_names = {e.data['name'] for e in IR.events if e.kind == 'store' and e.data.get('target') == 'attr'}
+
         def sel(II, o):
+            # ref_attrs_only: the reference lists the attributes the statement talks about; private bookkeeping
+            # attributes the code keeps in addition are not a disagreement
             return [e for e in II.events if e.kind == 'store' and e.data.get('target') == 'attr'
-                    and (o is None or e.func.short == o)]
+                    and (o is None or e.func.short == o) and (not ref_attrs_only or e.data['name'] in ref_names)]
         _match_groups(ctx, rule, title, fi, 'attribute update', sel(I, own), sel(IR, None),
                       lambda e: [('object', e.data['base']), ('attribute', lift(e.data['name'])), ('value', e.data['value']),
                                  ('guard', e.cond())], txt)
